@@ -32,6 +32,10 @@ static const double LAT_LIM = 85.0 * M_PI / 180.0;
 static const double H_MIN = -500.0, H_MAX = 9000.0;
 static const double HORIZ_MAX = 100000.0, VERT_MAX = 10000.0;
 static const double EARTH_MAG = 6.4e6;     // magnitude of ECEF coordinates (for rounding bounds)
+// The statement fixes nothing about the height of a frame auto-anchored on an altitude-less point
+// (the converter re-uses the altitude of the anchor it had before reset()); DESIGN C02: noted, not
+// alarmed on.  Set to true to demand that reset() also forgets that altitude.
+static const bool STRICT_RESET_ALTITUDE = false;
 
 // ------------------------------------------------------------------------------------------
 // long double oracle
@@ -431,6 +435,11 @@ struct Runner
       a.alt = conv->getAnchor().altitude;
       c.count("wgs84_auto_anchor_altitude_adopted");
       if (a.alt != 0.0) {c.count("wgs84_auto_anchor_kept_previous_altitude");}
+      if (STRICT_RESET_ALTITUDE) {
+        // strict reading (off, see DESIGN C02): a reset converter must behave like a new one, whose
+        // altitude-less auto-anchor sits at altitude 0
+        c.expect("fresh.reset_forgets_anchor_altitude", a.alt == 0.0, "stale_frame", P(), W(got));
+      }
       if (!std::isfinite(a.alt) || a.alt < H_MIN || a.alt > H_MAX) {
         // outside the quantifier: nothing more can be checked on this history
         c.skip("history:wgs84_auto_anchor_altitude_outside_domain");
@@ -681,7 +690,7 @@ static void one_case(vh::Ctx & c, uint64_t idx)
 
 int main(int argc, char ** argv)
 {
-  return vh::run(argc, argv, "C02", {20000, 2000000}, one_case, [](vh::Ctx & c) {
+  return vh::run(argc, argv, "C02", {20000, 1000000}, one_case, [](vh::Ctx & c) {
       c.count("loop_hook_calls", vh::loopwatch().calls);
     });
 }
